@@ -69,14 +69,16 @@ CLASSES = [
     ("set_str", ['{"a"}', '{"b", "c"}']),
     ("func", ["len", "abs"]),
     ("user", ["U()"]),
+    ("useri", ["UI()"]),
 ]
 CLASS_NAMES = [c for c, _ in CLASSES]
 REPS = dict(CLASSES)
-PREAMBLE = ("class U:\n  pass\n"
+PREAMBLE = ("class U:\n  pass\nclass UI:\n  def __getitem__(self, o):\n    return 0\n"
             "n_int = 1\nn_bool = True\nn_float = 1.5\nn_complex = 1j\nn_str = \"a\"\nn_bytes = b\"a\"\n"
             "n_tint = (1, 2)\nn_tstr = (\"a\",)\nn_tempty = ()\n")
 PREAMBLE_LINES = PREAMBLE.count("\n")
 
+USER_CLASSES = ("user", "useri")   # pseudo-classes: instance of a dunder-less class / of a class with __getitem__
 BINOPS = [("add", "+"), ("sub", "-"), ("mul", "*"), ("div", "/")]
 ATTRS = ["real", "imag", "upper", "append", "keys", "add", "count", "index", "items", "join",
          "decode", "bit_length", "is_integer", "conjugate", "copy", "__name__", "foo"]
@@ -201,46 +203,64 @@ def source_key(extra=""):
   return h.hexdigest()[:20]
 
 
-def _pytype_errors(src):
-  """(error name, line) list of the real pytype on `src` (runs inside a worker process)."""
+def _warm_pytype():
+  """Loads pytype (and its builtins) once in this process, so that forked workers share it."""
   common.load_pytype()
   from pytype import config, io  # pylint: disable=g-import-not-at-top
+  if not getattr(_warm_pytype, "done", False):
+    io.generate_pyi("x = 1\n", config.Options.create(python_version=(3, 12)))
+    _warm_pytype.done = True
+  return io, config
+
+
+def run_module(args):
+  """args = (preamble, [stmt], assign).  One statement per line (`v<i> = stmt` when assign).
+  Returns ([(sorted error names, inferred type of v<i> or None)], [errors outside the statement lines])."""
+  import re  # pylint: disable=g-import-not-at-top
+  pre, stmts, assign = args
+  io, config = _warm_pytype()
+  src = pre + "".join(("v%d = %s\n" % (i, s)) if assign else (s + "\n") for i, s in enumerate(stmts))
+  base = pre.count("\n")
   with warnings.catch_warnings():
     warnings.simplefilter("ignore")
-    ret, _ = io.generate_pyi(src, config.Options.create(python_version=(3, 12)))
-  return [(e.name, e.line) for e in ret.context.errorlog.unique_sorted_errors()]
-
-
-def _pytype_module(stmts):
-  src = PREAMBLE + "".join(s + "\n" for s in stmts)
-  errs = _pytype_errors(src)
+    try:
+      ret, pyi = io.generate_pyi(src, config.Options.create(python_version=(3, 12)))
+    except Exception as e:  # a crash of the analysis shows up on every line
+      return [(["CRASH:" + type(e).__name__], None)] * len(stmts), []
   per = [[] for _ in stmts]
   stray = []
-  for name, line in errs:
-    i = line - PREAMBLE_LINES - 1
+  for e in ret.context.errorlog.unique_sorted_errors():
+    i = (e.line or 0) - base - 1
     if 0 <= i < len(stmts):
-      per[i].append(name)
+      per[i].append(e.name)
     else:
-      stray.append((name, line))
-  return per, stray
+      stray.append((e.name, e.line))
+  types = {}
+  for m in re.finditer(r"^v(\d+): (.+)$", pyi or "", re.M):
+    types[int(m.group(1))] = m.group(2).strip()
+  return [(sorted(set(p)), types.get(i)) for i, p in enumerate(per)], stray
 
 
-def run_pytype_lines(stmts, per_module=80, procs=None):
-  """Real pytype verdict (sorted error-name list) for each statement; 80 statements per module."""
-  chunks = [stmts[i:i + per_module] for i in range(0, len(stmts), per_module)]
-  if not chunks:
+def run_modules(mods, procs=8):
+  """mods: [(preamble, [stmt], assign)].  pytype is loaded once in the parent; workers are forked."""
+  if not mods:
     return []
-  procs = procs or min(16, len(chunks))
-  if procs <= 1:
-    res = [_pytype_module(c) for c in chunks]
-  else:
-    with multiprocessing.get_context("fork").Pool(procs) as pool:
-      res = pool.map(_pytype_module, chunks, chunksize=1)
+  common.ensure_ext()
+  _warm_pytype()
+  if len(mods) == 1:
+    return [run_module(mods[0])]
+  with multiprocessing.get_context("fork").Pool(min(procs, len(mods))) as pool:
+    return pool.map(run_module, mods, chunksize=1)
+
+
+def run_pytype_lines(stmts, per_module=80):
+  """Real pytype verdict (sorted error-name list) for each statement; 80 statements per module."""
+  mods = [(PREAMBLE, stmts[i:i + per_module], False) for i in range(0, len(stmts), per_module)]
   out = []
-  for per, stray in res:
+  for per, stray in run_modules(mods):
     if stray:
       raise RuntimeError("pytype error outside the statement lines: %r" % (stray,))
-    out.extend(sorted(set(p)) for p in per)
+    out.extend(p for p, _ in per)
   return out
 
 
@@ -282,9 +302,9 @@ def advertised(row, outcomes):
   (AttributeError); calling a non-callable (`x()` raising TypeError)."""
   kind, _, l, r = row
   if kind.startswith("bin_") or kind == "sub":
-    return l != "user" and r != "user"
+    return l not in USER_CLASSES and r not in USER_CLASSES
   if kind == "neg":
-    return l != "user"
+    return l not in USER_CLASSES
   if kind == "call":
     return True
   if kind in ("attr", "mcall"):
@@ -416,10 +436,12 @@ def gen_ops(pyv, cpv):
   L.append("CPython's view: outcome classes over all representative values (running interpreter %s).-/"
            % sys.version.split()[0])
   L.append("namespace PytypeModel.Generated.BuiltinOps\n")
-  L.append("/-- value classes of F14; index = class code.  The last one (`user`) is an instance of a")
+  L.append("/-- value classes of F14; index = class code.  `user` is an instance of a")
   L.append("user class that defines none of the modelled dunders. -/")
   L.append("def classNames : List String := [" + ", ".join(lean_str(c) for c in CLASS_NAMES) + "]")
   L.append("def userIdx : Nat := %d" % idx["user"])
+  L.append("/-- instance of a user class that defines `__getitem__` (an `Iterable` for pytype's matcher) -/")
+  L.append("def userIterIdx : Nat := %d" % idx["useri"])
   L.append("/-- row kinds; index = kind code -/")
   L.append("def kindNames : List String := [" + ", ".join(lean_str(c) for c in KINDS) + "]")
   L.append("def attrNames : List String := [" + ", ".join(lean_str(c) for c in ATTRS) + "]")
